@@ -129,10 +129,13 @@ def _collect(tier):
     sweep2, _ = configs.sweep_config(table, 2)
     sev = {"severity": {"Todo": {"type": "error"}, "Future": {"type": "warning"}}, "rule": {"length_001": {"severity": "Todo"}, "group": {"case": {"severity": "Future"}}}}
     lay = [{"rule": {"global": {"indent_size": 4}, "group": {"whitespace": {"disable": True}}}}, {"rule": {"process_016": {"disable": True}, "group": {"case": {"fixable": False}}}}]
+    # yes/no options given as YAML booleans (unquoted yes / no) at the global and group levels
+    ybool = [{"rule": {"global": {"ignore_single_line": True}, "group": {"alignment": {"compact_alignment": True, "blank_line_ends_group": False, "comment_line_ends_group": False},
+                                                                        "structure": {"ignore_single_line": False}}}}]
     scen = []
     for style in (None, "jcl", "indent_only"):
-        for cname, cfgs in (("none", []), ("sweep1", [sweep1]), ("layered", lay), ("severity", [sev]), ("sweep2+layered", [sweep2] + lay)):
-            if q and style == "indent_only" and cname not in ("none", "layered"):
+        for cname, cfgs in (("none", []), ("sweep1", [sweep1]), ("layered", lay), ("severity", [sev]), ("yaml-booleans", ybool), ("sweep2+layered", [sweep2] + lay)):
+            if q and style == "indent_only" and cname not in ("none", "layered", "yaml-booleans"):
                 continue
             scen.append({"name": "%s+%s" % (style, cname), "style": style, "configs": cfgs, "inputs": inputs[:2] if q else inputs})
     for k in range(nsh):
